@@ -73,6 +73,16 @@ def run_case(case):
 	allg = sorted(set(re.sub(r'\.fasta(\.gz)?$', '', f) for f in os.listdir(gdir)))
 	gs = rnd.sample(allg, n)
 	paths = [os.path.join(gdir, g + '.fasta') for g in gs]
+	dup_tmp = None
+	if case.get('dups'):
+		# some genomes occur several times under different names (identical content: distance 0), next to distinct ones
+		import tempfile, shutil
+		dup_tmp = tempfile.mkdtemp(prefix='c17d_')
+		for j in range(case['dups']):
+			src = paths[j % 2]
+			dst = os.path.join(dup_tmp, f'copy{j}_of_{os.path.basename(src)}')
+			shutil.copy(src, dst)
+			paths.insert(rnd.randrange(len(paths) + 1), dst)
 	from gambit.cli import cli
 	old = sys.stdout
 	sys.stdout = buf = io.StringIO()
@@ -92,7 +102,7 @@ def run_case(case):
 			tmp = tempfile.mkdtemp(prefix='c17_')
 			try:
 				lf = os.path.join(tmp, 'l.txt')
-				open(lf, 'w').write(''.join(os.path.basename(p) + '\n' for p in paths))
+				open(lf, 'w').write(''.join((os.path.basename(p) if os.path.dirname(p) == gdir else p) + '\n' for p in paths))
 				cli.main(['tree', '--no-progress', '-k', '6', '-p', 'AT', '-l', lf, '--ldir', gdir] + (['-c', str(case['cores'])] if case.get('cores') else []), standalone_mode=False)
 			finally:
 				shutil.rmtree(tmp, ignore_errors=True)
@@ -102,11 +112,16 @@ def run_case(case):
 		pass
 	finally:
 		sys.stdout = old
+	if case['kind'] == 'cli_list' and dup_tmp:
+		pass
 	tree = Phylo.read(io.StringIO(buf.getvalue()), 'newick')
 	ks = KmerSpec(6, 'AT')
 	sigs = [_sig(p, ks) for p in paths]
 	dmat = np.array([[float(jaccarddist(a, b)) for b in sigs] for a in sigs])
 	problems = _check_tree(tree, [spec_label(p) for p in paths], dmat, 2e-5)     # Newick carries 5 decimals
+	if dup_tmp:
+		import shutil
+		shutil.rmtree(dup_tmp, ignore_errors=True)
 	return {'ok': not problems, 'expected': 'UPGMA dendrogram of the pairwise distances', 'actual': problems or 'ok'}
 
 
@@ -117,6 +132,9 @@ def bounded(tier, seed):
 		cases.append({'kind': 'library', 'seed': rnd.randrange(10 ** 6), 'n': rnd.choice([2, 3, 4, 5, 8, 13]), 'ties': rnd.random() < .5, 'identical': rnd.random() < .3})
 	for _ in range(6 if tier == 'quick' else 40):
 		cases.append({'kind': rnd.choice(['cli', 'cli_sigs', 'cli_list']), 'seed': rnd.randrange(10 ** 6), 'n': rnd.choice([2, 3, 5, 9])})
+	# duplicated genomes (zero distances inside a group) next to distinct ones, every channel
+	for kind, n, dups in (('cli', 3, 1), ('cli_sigs', 4, 2), ('cli_list', 3, 3), ('cli_sigs', 5, 1)):
+		cases.append({'kind': kind, 'seed': rnd.randrange(10 ** 6), 'n': n, 'dups': dups})
 	# many more genomes than worker processes (work is then split into batches / chunks per worker)
 	for kind, n, cores in (('cli', 9, 1), ('cli_list', 11, 2), ('cli', 6, 1)):
 		cases.append({'kind': kind, 'seed': rnd.randrange(10 ** 6), 'n': n, 'cores': cores})
